@@ -168,6 +168,6 @@ pub fn def() -> PropertyDef {
                reordered video included; per-track presentation timelines (stts + ctts, mapped through an edit list when present) are compared \
                with the submitted timestamps to within one tick; non-trivial = first audio != first video PTS, or first video PTS != 0",
         assumptions: &["presentation time of sample i = sum of stts deltas + ctts offset, mapped through elst when present"],
-        subs: vec![Box::new(PSub { name: "sync", quick: 30000, thorough: 800000, strat, eval })],
+        subs: vec![Box::new(PSub { name: "sync", quick: 30000, thorough: 800000, strat, eval }), Box::new(LSub { name: "long_recordings", cases: long_cases_all, eval, note: LONG_NOTE })],
     }
 }
